@@ -336,3 +336,29 @@ pub mod transitions {
         VM::VMObjectModel::LOCAL_PINNING_BIT_SPEC.is_object_pinned::<VM>(object)
     }
 }
+
+/// Views of every ImmixSpace of the plan (default space and non-moving space).
+pub fn immix_views<VM: VMBinding>(
+    mmtk: &MMTK<VM>,
+) -> Vec<crate::policy::immix::immixspace::VerifImmixView> {
+    let mut out = vec![];
+    mmtk.get_plan().for_each_space(&mut |space| {
+        if let Some(s) = space.downcast_ref::<crate::policy::immix::ImmixSpace<VM>>() {
+            out.push(s.verif_view());
+        }
+    });
+    out
+}
+
+/// Round trip of the Immix block state byte encoding: `(decode(b) re-encoded, is reusable)`.
+pub fn immix_block_state_roundtrip(b: u8) -> (u8, bool) {
+    let s = crate::policy::immix::block::BlockState::from(b);
+    (u8::from(s), s.is_reusable())
+}
+
+/// Is concurrent marking in progress (concurrent plans only)?
+pub fn concurrent_marking_in_progress<VM: VMBinding>(mmtk: &MMTK<VM>) -> Option<bool> {
+    mmtk.get_plan()
+        .concurrent()
+        .map(|c| c.concurrent_work_in_progress())
+}
